@@ -135,20 +135,13 @@ LegacyIgnoresHost(doc, req, obs) ==
    /\ Gist(LegacyObsH(LegacySees2(doc), req, FALSE, FALSE, TRUE, TRUE, TRUE)) # Gist(CurLegacyObs(doc, req))
 
 (* F-C09-12: the legacy router treats every server variable as a wildcard: a URL whose     *)
-(* scheme, host label or port is outside the enum of the variable in that position -- a    *)
-(* URL under no declared server -- is routed.  The observation is a route, it is what the  *)
+(* scheme or port is outside the enum of the variable in that position -- a URL under no   *)
+(* declared server (a host label outside its enum is an open region) -- is routed.  The observation is a route, it is what the  *)
 (* model of the code (enums erased) predicts, and the same model on the document with its  *)
 (* enums answers otherwise.                                                                *)
 LegacyIgnoresEnum(doc, req, obs) ==
    /\ obs.k = "route" /\ LegacyAsModel(doc, req, obs)
    /\ Gist(LegacyObsH(doc, req, FALSE, FALSE, TRUE, TRUE, TRUE)) # Gist(CurLegacyObs(doc, req))
-
-(* F-C09-13: gorillamux hands a host variable to mux as a wildcard label ({sub} -> [^.]+),  *)
-(* whatever its enum: a URL whose host label is outside the enum is routed.  Same shape of *)
-(* predicate (gorillamux does honour the enum of a scheme variable).                       *)
-MuxIgnoresHostEnum(doc, req, obs) ==
-   /\ obs.k = "route" /\ MuxAsPinned(doc, req, obs)
-   /\ Gist(MuxObsP(doc, req, FALSE, TRUE, FALSE)) # Gist(CurMuxObs(doc, req))
 
 (* F-C09-6: the legacy router never looks at path-level servers.  The observation is     *)
 (* correct (or deviates in one of the other legacy classes) for the document without     *)
@@ -173,6 +166,5 @@ Class(doc, req, router, obs, failed) ==
    ELSE IF router = "g" /\ obs.k = "rerr" /\ MuxMethodShadow(doc, req, obs, failed) THEN "mux_method_mismatch_shadows_later_template"
    ELSE IF router = "g" /\ obs.k \in {"route", "rerr"} /\ MuxServersLeak(doc, req, obs) THEN "mux_path_servers_leak"
    ELSE IF router = "g" /\ obs.k = "route" /\ MuxPortClobbers(doc, req, obs, failed) THEN "mux_port_variable_overwrites_path_parameter"
-   ELSE IF router = "g" /\ obs.k = "route" /\ MuxIgnoresHostEnum(doc, req, obs) THEN "mux_ignores_host_variable_enum"
    ELSE "none"
 =============================================================================
